@@ -443,6 +443,13 @@ def _update_env(F, nid, consts, facts):
         for key in [key for key in facts if t in key]:
             del facts[key]
 
+    def copy_facts(dst, src):
+        import re
+        pat = re.compile(r"(?<![A-Za-z0-9_>.])%s(?![A-Za-z0-9_])" % re.escape(src))
+        for key in list(facts):
+            if _mentions(key, src):
+                facts[pat.sub(dst, key)] = facts[key]
+
     if k == "decl":
         for v in nd["vars"]:
             kill_var(v["n"])
@@ -452,6 +459,8 @@ def _update_env(F, nid, consts, facts):
                     consts[v["n"]] = iv["cv"]
                 elif iv.get("k") == "ref" and iv["n"] in consts:
                     consts[v["n"]] = consts[iv["n"]]
+                elif iv.get("k") == "ref" and iv.get("dk") in ("var", "param"):
+                    copy_facts(v["n"], iv["n"])
     elif k == "bin" and nd.get("asg"):
         lh = F.strip(nd["lh"])
         ln = F.nodes[lh]
@@ -465,6 +474,8 @@ def _update_env(F, nid, consts, facts):
                     consts[v] = rn["cv"]
                 elif rn.get("k") == "ref" and rn["n"] in consts:
                     consts[v] = consts[rn["n"]]
+                elif rn.get("k") == "ref" and rn.get("dk") in ("var", "param") and rn["n"] != v:
+                    copy_facts(v, rn["n"])
             # compound updates are not propagated (loop counters would never converge)
         else:
             kill_text(F.render(lh))
@@ -477,6 +488,11 @@ def _update_env(F, nid, consts, facts):
         else:
             kill_text(F.render(e))
     elif k == "call":
+        # a call may change any memory: forget facts about memory (member/array/deref
+        # expressions) unless the callee is a known side-effect-free helper
+        if not _pure_callee(nd.get("fn")):
+            for key in [key for key in facts if ("->" in key or "." in key or "[" in key or "*" in key)]:
+                del facts[key]
         # &v passed to a call: v may change
         for a in nd["a"]:
             an = F.nodes[F.strip(a)]
@@ -486,6 +502,21 @@ def _update_env(F, nid, consts, facts):
                     kill_var(inner["n"])
                 else:
                     kill_text(F.render(F.strip(an["e"])))
+
+
+_PURE_PREFIXES = ("__builtin_expect", "ABTU_likely", "ABTU_unlikely", "ABTD_atomic_relaxed_load", "ABTD_atomic_acquire_load",
+                  "ABTI_local_get_", "ABTI_global_get_global", "ABTI_self_get_thread_id")
+
+
+def _pure_callee(fn):
+    if not fn:
+        return False
+    if fn.startswith(_PURE_PREFIXES):
+        return True
+    # handle <-> pointer conversions: ABTI_xxx_get_ptr / ABTI_xxx_get_handle
+    if fn.startswith("ABTI_") and (fn.endswith("_get_ptr") or fn.endswith("_get_handle")):
+        return True
+    return False
 
 
 def _mentions(key, v):
